@@ -46,15 +46,17 @@ theorem provAssign_fault (s : State) (node : String) (ip : IP) : (provAssign s n
 theorem prov_provAssign (s : State) (node : String) (ip j : IP) (hon : s.provOn = true) :
     Tbl.get (prov (provAssign s node ip).1) j =
       if (provAssign s node ip).2 = true ∧ ip = j then some node else Tbl.get (prov s) j := by
-  unfold prov
-  rw [provAssign_plog s node ip hon, provOf_snoc, get_applyCall]
-  cases (provAssign s node ip).2 with
-  | false => simp
-  | true =>
-    dsimp only
-    by_cases hij : ip = j
-    · simp [hij]
-    · simp [hij]
+  rcases provAssign_cases s node ip hon with ⟨e, e2⟩ | hl
+  · rw [e2, e]; simp
+  · unfold prov
+    rw [hl, provOf_snoc, get_applyCall]
+    cases (provAssign s node ip).2 with
+    | false => simp
+    | true =>
+      dsimp only
+      by_cases hij : ip = j
+      · simp [hij]
+      · simp [hij]
 
 /-! ### the assign / updateAttr loop -/
 
@@ -65,7 +67,7 @@ def LoopPre (s : State) (k : Key) (node : String) (found : List IP) (l : List IP
 
 theorem bindLoop_core (k : Key) (node : String) (a : Attr) (found : List IP)
     (hnode : node ≠ "") (han : a.node = node) (hau : a.uid ≠ 0) (hkp : k.pod ≠ "") :
-    ∀ (l : List IP) (s : State), Core s → s.fault = 0 → LoopPre s k node found l →
+    ∀ (l : List IP) (s : State), Core s → (s.fault = 0 ∨ found = []) → LoopPre s k node found l →
       Core (bindLoop s k node a found l).1 ∧
       ((bindLoop s k node a found l).2 = .ok → ∀ ip, ip ∈ l → Tbl.get (prov (bindLoop s k node a found l).1) ip = some node) ∧
       (∀ j, Tbl.get (prov s) j = some node → Tbl.get (prov (bindLoop s k node a found l).1) j = some node) := by
@@ -108,8 +110,12 @@ theorem bindLoop_core (k : Key) (node : String) (a : Attr) (found : List IP)
         · rw [if_neg (fun hh => hij hh.2)]; exact hj
       by_cases hfound : found.contains ip = true
       · rw [if_pos hfound]
+        have hf0 : s.fault = 0 := by
+          rcases hf with h0 | hnil
+          · exact h0
+          · rw [hnil] at hfound; simp at hfound
         have us := updateAttr_ok_spec (provAssign s node ip).1 k ip a r (pq.coherent h.coh)
-          (by rw [provAssign_fault]; exact hf) (by rw [pal]; exact hr) hrk
+          (by rw [provAssign_fault]; exact hf0) (by rw [pal]; exact hr) hrk
         have uplog := updateAttr_plog (provAssign s node ip).1 k ip a
         have ualloc : ∀ j, Tbl.get (updateAttr (provAssign s node ip).1 k ip a).1.alloc j =
             if ip = j then some (r.assign r.key a (provAssign s node ip).1.clock) else Tbl.get s.alloc j := by
@@ -142,7 +148,7 @@ theorem bindLoop_core (k : Key) (node : String) (a : Attr) (found : List IP)
             exact ⟨r.assign r.key a (provAssign s node ip).1.clock, rfl, hrk, Or.inl han⟩
           · rw [if_neg hij]
             exact hpre j (by simp [hj])
-        have r2 := ih _ hcore (by rw [updateAttr_fault, provAssign_fault]; exact hf) hpre'
+        have r2 := ih _ hcore (hf.imp (fun h0 => by rw [updateAttr_fault, provAssign_fault]; exact h0) id) hpre'
         simp only [us.1]
         refine ⟨r2.1, fun hres j hj => ?_, fun j hj => r2.2.2 j (by rw [uprov]; exact hkeep1 j hj)⟩
         rcases List.mem_cons.mp hj with e | e
@@ -166,7 +172,7 @@ theorem bindLoop_core (k : Key) (node : String) (a : Attr) (found : List IP)
             exact h.j j
         have hpre' : LoopPre (provAssign s node ip).1 k node found t := by
           intro j hj; rw [pal]; exact hpre j (by simp [hj])
-        have r2 := ih _ hcore (by rw [provAssign_fault]; exact hf) hpre'
+        have r2 := ih _ hcore (hf.imp (fun h0 => by rw [provAssign_fault]; exact h0) id) hpre'
         refine ⟨r2.1, fun hres j hj => ?_, fun j hj => r2.2.2 j (hkeep1 j hj)⟩
         rcases List.mem_cons.mp hj with e | e
         · subst e; exact r2.2.2 _ hpip
@@ -299,7 +305,7 @@ theorem bindCommit_eff (s : State) (pod : Pod) (ns name : String) (uid : Nat) (n
       rw [h7]
 
 theorem bind_post (s : State) (ns name : String) (uid : Nat) (node : String) (ch : Choice) (h : Core s)
-    (hf : s.fault = 0) (hsame : bindSameNode s ns name node = true)
+    (hf : s.fault = 0 ∨ bindNoReuse s ns name ch = true) (hsame : bindSameNode s ns name node = true)
     (hl : ∀ pod, Tbl.get s.vPods (ns, name) = some pod → (keyOf pod).pod ≠ "" ∧ pod.uid ≠ 0) :
     BindPost s ns name node (Plugin.bind Facts.good s ns name uid node ch).1 := by
   have same : BindPost s ns name node s := ⟨h, Or.inl rfl⟩
@@ -388,9 +394,16 @@ theorem bind_post (s : State) (ns name : String) (uid : Nat) (node : String) (ch
                   · exact Or.inr ⟨by simpa using hfound, e⟩
                   · exact Or.inl e
                 · exact ⟨r, hr, hk, Or.inl hn⟩
+              have hf' : ba.1.fault = 0 ∨ infos.filterMap id = [] := by
+                rcases hf with h0 | hnr
+                · left; rw [bn.1.frame.fault]; exact h0
+                · right
+                  unfold bindNoReuse at hnr
+                  rw [hpod] at hnr
+                  simp only [hinf] at hnr
+                  simpa using hnr
               have lp := bindLoop_core (keyOf pod) node { policy := policyOf pod, node := node, uid := pod.uid }
-                (infos.filterMap id) hnode rfl hu0 hkp (ba.2.2.filterMap id) ba.1 cb
-                (by rw [bn.1.frame.fault]; exact hf) hpre
+                (infos.filterMap id) hnode rfl hu0 hkp (ba.2.2.filterMap id) ba.1 cb hf' hpre
               have lspec := bindLoop_spec (keyOf pod) node { policy := policyOf pod, node := node, uid := pod.uid }
                 (infos.filterMap id) (ba.2.2.filterMap id) ba.1 cb.coh
               have lpods : (bindLoop ba.1 (keyOf pod) node { policy := policyOf pod, node := node, uid := pod.uid }
